@@ -465,3 +465,41 @@ func LexInput(t *rapid.T, m *lexnfa.Model, maxBytes int) []byte {
 	}
 	return out
 }
+
+// SourceFor draws a text meant to be lexed into the named terminals (best
+// effort: maximal munch may decide otherwise): a lexeme of each, separated by
+// a lexeme of an ignored pattern where the grammar has one. "INVALID" stands
+// for a rune no pattern starts with. About one lexeme in six is drawn long.
+func SourceFor(t *rapid.T, m *lexnfa.Model, names []string) []byte {
+	byName := map[string]int{}
+	ign := -1
+	for i, p := range m.Patterns {
+		if p.Ignored {
+			if ign < 0 {
+				ign = i
+			}
+			continue
+		}
+		if _, ok := byName[p.Name]; !ok {
+			byName[p.Name] = i
+		}
+	}
+	var out []byte
+	for _, n := range names {
+		pi, ok := byName[n]
+		switch {
+		case !ok:
+			out = append(out, rapid.SampledFrom([]string{"\x00", "\x7f", "☃", "\xff"}).Draw(t, "invalidRune")...)
+		case rapid.IntRange(0, 5).Draw(t, "longLexeme") == 0:
+			out = append(out, Lexeme(t, m, pi, 48)...)
+		default:
+			out = append(out, Lexeme(t, m, pi, 5)...)
+		}
+		if ign >= 0 {
+			out = append(out, Lexeme(t, m, ign, 2)...)
+		} else if rapid.Bool().Draw(t, "spaceAnyway") {
+			out = append(out, ' ')
+		}
+	}
+	return out
+}
